@@ -153,6 +153,8 @@ func main() {
 				if len(f.Only) > 0 && !contains(f.Only, fl) {
 					continue
 				}
+				// one protobuf package per (option set, flavour): all variants are linked into one driver binary
+				f.Pkg = fmt.Sprintf("v%s%s.%s", setName, fl, f.Base)
 				rel := filepath.Join("gen", setName, fl, f.Base)
 				goPkg := "verif/corp/" + filepath.ToSlash(rel)
 				protoPath := filepath.ToSlash(filepath.Join(rel, f.Base+".proto"))
